@@ -129,6 +129,10 @@ pub struct MInst {
     pub partial_unreg: bool,
     /// C25: stamps of all samples the model accepted (for ever)
     pub accepted_ts: Vec<i64>,
+    /// C25: stamps that may or may not be in the filter's memory: every dispose / unregister
+    /// notification (None) - the specification does not say whether TIME_BASED_FILTER applies to
+    /// them - and data samples (their id) whose acceptance depends on such a stamp
+    pub maybe_ts: Vec<(i64, Option<(u32, u32)>)>,
 }
 
 impl MInst {
@@ -206,6 +210,8 @@ pub struct Model {
     /// number of data samples delivered so far (set by the executor) and, per taken sample, its value at the take
     pub arrival_clock: u64,
     pub taken_at: BTreeMap<(u32, u32), u64>,
+    /// C25: (arrival number, instance, stamp) of every dispose / unregister delivered
+    pub c25_notifs: Vec<(u64, u32, i64)>,
 }
 
 fn ss_bit(read: bool) -> u8 {
@@ -240,6 +246,7 @@ impl Model {
             rejections_expected: 0,
             arrival_clock: 0,
             taken_at: BTreeMap::new(),
+            c25_notifs: Vec::new(),
         }
     }
     pub fn stat(&mut self, k: &'static str, n: i64) {
@@ -289,7 +296,11 @@ impl Model {
         let cfg = self.cfg.clone();
         self.note(&format!("d{w}.{key}"));
         let known = self.insts.contains_key(&key);
-        // TIME_BASED_FILTER (C25: KEEP_ALL, no limits, no life cycle changes)
+        // TIME_BASED_FILTER (C25: KEEP_ALL, no limits). A sample closer than the separation to a
+        // stamp the model is sure was accepted is filtered; one that is only close to a stamp that
+        // may or may not be remembered (notification, or a data sample that itself depends on one) is
+        // stored as *optional*: the model accepts it present or absent and learns from the reads.
+        let mut c25_maybe = false;
         if cfg.min_sep_ms > 0 {
             let acc = self.insts.get(&key).map(|i| i.accepted_ts.clone()).unwrap_or_default();
             if acc.iter().any(|a| (ts - a).abs() < cfg.min_sep_ms) {
@@ -297,6 +308,12 @@ impl Model {
                 self.stat("model_filtered", 1);
                 self.note("filtered");
                 return Expect::Filtered;
+            }
+            let maybe = self.insts.get(&key).map(|i| i.maybe_ts.clone()).unwrap_or_default();
+            if maybe.iter().any(|(a, _)| (ts - a).abs() < cfg.min_sep_ms) {
+                c25_maybe = true;
+                self.stat("model_unsure_sample_near_notification_stamp", 1);
+                self.note("maybe");
             }
         }
         // ---- resource limits under the counting conventions the specification leaves open:
@@ -373,6 +390,7 @@ impl Model {
             na_since_access: false,
             partial_unreg: false,
             accepted_ts: Vec::new(),
+            maybe_ts: Vec::new(),
         });
         if all_reject {
             let mut reasons: Vec<Reason> = Vec::new();
@@ -398,6 +416,7 @@ impl Model {
             return Expect::Rejected(reasons);
         }
         inst.live.insert(w);
+        let reborn = inst.ist != IState::Alive;
         match inst.ist {
             IState::Alive => {}
             IState::Disposed => {
@@ -413,12 +432,14 @@ impl Model {
                 inst.view_cause = "rebirth";
             }
         }
-        if inst.view_cause == "rebirth" && inst.last_change != "write" {
-            // counted below via stats
-        }
+
         inst.last_change = "write";
-        inst.accepted_ts.push(ts);
-        let s = MSample { valid: true, w, seq, ts, read: false, dgc: inst.dgc, nwgc: inst.nwgc, optional: false };
+        if c25_maybe {
+            inst.maybe_ts.push((ts, Some((w, seq))));
+        } else {
+            inst.accepted_ts.push(ts);
+        }
+        let s = MSample { valid: true, w, seq, ts, read: false, dgc: inst.dgc, nwgc: inst.nwgc, optional: c25_maybe };
         let mut evicted = None;
         if at_depth {
             let pos = inst.samples.iter().position(|s| s.valid).expect("at depth");
@@ -432,6 +453,9 @@ impl Model {
             inst.samples.push(s);
         }
         self.fate.insert((w, seq), (key, ts, Fate::Stored));
+        if reborn {
+            self.stat("model_rebirths", 1);
+        }
         if let Some(e) = evicted {
             if let Some(f) = self.fate.get_mut(&e) {
                 f.2 = Fate::Evicted;
@@ -471,14 +495,19 @@ impl Model {
             }
             IState::Disposed => {}
             IState::NoWriters => {
-                if dispose {
+                if dispose && self.cfg.min_sep_ms == 0 {
                     // the state chart has no NO_WRITERS -> DISPOSED edge; implementations differ
+                    // (C25 does not judge instance states: it goes on)
                     self.stat("model_unsure_dispose_in_no_writers", 1);
                     return Expect::Unsure("dispose received while NOT_ALIVE_NO_WRITERS".into());
                 }
             }
         }
         inst.na_since_access = true;
+        if self.cfg.min_sep_ms > 0 {
+            inst.maybe_ts.push((ts, None));
+            self.c25_notifs.push((self.arrival_clock, key, ts));
+        }
         // KEEP_LAST: whether a dispose / unregister notification occupies a history slot (and thereby
         // pushes out the oldest data sample of a full instance) is not specified
         if let Some(d) = self.cfg.depth {
@@ -650,7 +679,7 @@ impl Model {
                 }
                 let o = &obs[oi[j]];
                 if s.optional {
-                    if !o.valid && o.ts == Some(s.ts) {
+                    if s.valid == o.valid && (if s.valid { o.id == Some((s.w, s.seq)) } else { o.ts == Some(s.ts) }) {
                         m.pairs.push((mi, oi[j]));
                         j += 1;
                     } else {
@@ -796,6 +825,14 @@ impl Model {
             let inst = self.insts.get_mut(&m.key).unwrap();
             for (mi, oi) in &m.pairs {
                 let s = &mut inst.samples[*mi];
+                if s.optional && s.valid {
+                    // C25: the sample was accepted after all: its stamp is in the filter's memory
+                    let id = (s.w, s.seq);
+                    if let Some(p) = inst.maybe_ts.iter().position(|(_, i)| *i == Some(id)) {
+                        let (t, _) = inst.maybe_ts.remove(p);
+                        inst.accepted_ts.push(t);
+                    }
+                }
                 s.optional = false;
                 if s.valid {
                     let o = &obs[*oi];
@@ -814,8 +851,13 @@ impl Model {
             for mi in &m.absent {
                 let s = &inst.samples[*mi];
                 if s.valid {
-                    if let Some(ft) = self.fate.get_mut(&(s.w, s.seq)) {
-                        ft.2 = Fate::Evicted;
+                    let id = (s.w, s.seq);
+                    let was_maybe = inst.maybe_ts.iter().position(|(_, i)| *i == Some(id));
+                    if let Some(ft) = self.fate.get_mut(&id) {
+                        ft.2 = if was_maybe.is_some() { Fate::Filtered } else { Fate::Evicted };
+                    }
+                    if let Some(p) = was_maybe {
+                        inst.maybe_ts.remove(p);
                     }
                 }
             }
